@@ -47,6 +47,7 @@ if [ -n "${VERIF_RACE:-}" ]; then
   # goroutines) with the race detector; the harness runs its free-running driver only
   RACEFLAG="-race"; BIN="$BUILD/$id-race"
   rm -rf "$BUILD/race-$id"; mkdir -p "$BUILD/race-$id"
+  export VERIF_EVIDENCE="${VERIF_EVIDENCE:-$BUILD/race-$id/evidence.json}"
   export VERIF_RACE_PASS=1 GORACE="log_path=$BUILD/race-$id/r halt_on_error=0 exitcode=0 history_size=4"
 fi
 if [ -z "$RACEFLAG" ] && [ -f "$HERE/mc/cmd/$id/SCHED" ]; then
